@@ -64,6 +64,7 @@ var c02UnitNames = []string{
 	"raw-atom", "raw-or", "raw-and", "raw-or-paren", "raw-and-or", "map1", "map2", "map-nil", "map-in", "struct",
 	"eq", "or-expr", "and-expr", "not-expr", "group-or", "named-or", "raw-in", "empty-map", "zero-struct", "group-and-or",
 	"group-or-map-raw", "group-or-raw-eq", "group-or-struct-map",
+	"lt", "lte", "gt", "gte", "neq", "in-expr", "or-expr-single", "and-expr-single",
 }
 
 func c02MakeUnit(kind int, db *gorm.DB, row *sqlRow, tag string) c02Unit {
@@ -126,6 +127,22 @@ func c02MakeUnit(kind int, db *gorm.DB, row *sqlRow, tag string) c02Unit {
 		return c02Unit{query: db.Where("a = ?", x).Where("b = ?", y).Or("c = ?", z), exp: tvOr(tvAnd(ax, by), cz)}
 	case "named-or":
 		return c02Unit{query: "a = @x " + symKW(tag+"_k", "OR") + " b = @y", args: []interface{}{sql.Named("x", x), sql.Named("y", y)}, exp: tvOr(ax, by)}
+	case "lt":
+		return c02Unit{query: clause.Lt{Column: "a", Value: x}, exp: colCmp(row, "a", "<", x)}
+	case "lte":
+		return c02Unit{query: clause.Lte{Column: "a", Value: x}, exp: colCmp(row, "a", "<=", x)}
+	case "gt":
+		return c02Unit{query: clause.Gt{Column: "a", Value: x}, exp: colCmp(row, "a", ">", x)}
+	case "gte":
+		return c02Unit{query: clause.Gte{Column: "a", Value: x}, exp: colCmp(row, "a", ">=", x)}
+	case "neq":
+		return c02Unit{query: clause.Neq{Column: "a", Value: x}, exp: colCmp(row, "a", "<>", x)}
+	case "in-expr":
+		return c02Unit{query: clause.IN{Column: "a", Values: []interface{}{x, y}}, exp: tvOr(ax, colCmp(row, "a", "=", y))}
+	case "or-expr-single":
+		return c02Unit{query: clause.Or(clause.Eq{Column: "a", Value: x}), exp: ax}
+	case "and-expr-single":
+		return c02Unit{query: clause.And(clause.Gt{Column: "b", Value: y}), exp: colCmp(row, "b", ">", y)}
 	case "group-or-map-raw":
 		return c02Unit{query: db.Where(map[string]interface{}{"a": x}).Or("b = ?", y), exp: tvOr(ax, by)}
 	case "group-or-raw-eq":
@@ -148,7 +165,7 @@ func c02MakeUnit(kind int, db *gorm.DB, row *sqlRow, tag string) c02Unit {
 }
 
 // units used at the second and third chain position in the quick tier
-var c02QuickSecond = []int{0, 1, 2, 3, 5, 6, 9, 11, 12, 14, 15, 20, 21}
+var c02QuickSecond = []int{0, 1, 2, 3, 5, 6, 9, 11, 12, 14, 15, 20, 21, 23, 29}
 
 type c02Shape struct {
 	comb []int // 0 Where, 1 Or, 2 Not
